@@ -265,7 +265,7 @@ def check(run):
                        "with the journal header on disk (synchronous=OFF), PENDING (COMMIT blocked by a reader), EXCLUSIVE, EXCLUSIVE with dirty pages spilled into the file; a third process "
                        "confirms the lock table (F_GETLK) and the extracted Model/Lock.v predicts it and whether a reader is admitted. In each state every read operation runs on a fresh "
                        "handle and on a long-lived handle with warm caches, through the real pager: admitted => success and exactly the content committed before (never 'UNCOMMITTED'); "
-                       "refused => an error and no rows. non-trivial = distinct (state, handle, operation)")
+                       "refused => an error and no rows. non-trivial = distinct (state, handle, operation) A read that starts under a RESERVED writer: the writer's COMMIT during the callback is refused; two transactions of one synchronous=OFF writer in a row with a read in each and none in between.")
     run.cov["distribution"] = dist
     run.sample({"state": "pending", "third_process_sees": PROBE["pending"], "reader": "every operation fails, no rows"})
     run.assumptions += ["SQLite 3.40.1 unix VFS lock ladder (os_unix.c unixLock) is what the model's connection steps transcribe; validated here by the probe in every state"]
